@@ -1,6 +1,8 @@
 // Operator-level correspondence harness (C03, C04, C05, C06, C07, C08, C09-interpolation, C02-rhs).
 //   h_ops residual <cases> <max_nr> <max_nt>
 #include "problem.hpp"
+#include <map>
+#include <memory>
 #include "Residual/ResidualGive/residualGive.h"
 #include "Residual/ResidualTake/residualTake.h"
 #include "DirectSolver/DirectSolverGiveCustomLU/directSolverGiveCustomLU.h"
@@ -63,11 +65,18 @@ static void transfer_big(Rng& rng, int npairs);
 static int mode_transfer(int cases, int max_nr, int max_nt)
 {
     Rng rng(seed_from_env());
+    // object history: the Interpolation objects live as long as the process (one per thread count and boundary mode), and every third
+    // shape is used for two consecutive pairs with the SAME nr x ntheta but different coordinates — whatever an Interpolation object
+    // remembers about an earlier pair must not leak into the next one
+    std::map<std::pair<int, bool>, std::unique_ptr<Interpolation>> interp_pool;
+    int nr = 0, nt = 0;
     for (int c = 0; c < cases; c++) {
-        int nr = pick_nr(rng, max_nr), nt = pick_nt(rng, max_nt);
-        if (nr < 9) nr = 9;
-        if (nt < 8) nt = 8;
-        if (nt % 4 != 0) nt += 2; // a level pair needs an even coarse ntheta
+        if (!(c % 3 == 2 && nr > 0)) {
+            nr = pick_nr(rng, max_nr); nt = pick_nt(rng, max_nt);
+            if (nr < 9) nr = 9;
+            if (nt < 8) nt = 8;
+            if (nt % 4 != 0) nt += 2; // a level pair needs an even coarse ntheta
+        }
         Problem p = make_problem(rng, nr, nt);
         std::optional<double> split = rng.coin(0.4) ? std::optional<double>(rng.uniform(p.R0 * 0.5, p.Rmax * 1.1)) : std::nullopt;
         Chain ch = make_chain(p, 2, true, true, split);
@@ -80,7 +89,9 @@ static int mode_transfer(int cases, int max_nr, int max_nt)
                hexvec(gf.radii()).c_str(), hexvec(gf.angles()).c_str(), hexvec(gc.radii()).c_str(), hexvec(gc.angles()).c_str());
         for (int threads : {1, 4}) {
             std::vector<int> tpl = {threads, threads};
-            Interpolation I(tpl, p.dirbc);
+            auto& slot = interp_pool[{threads, p.dirbc}];
+            if (!slot) slot = std::make_unique<Interpolation>(tpl, p.dirbc);
+            Interpolation& I = *slot;
             std::vector<double> xc = random_field(rng, gc.numberOfNodes()), yf = random_field(rng, gf.numberOfNodes());
             Vector<double> xcv = from_rowmajor(gc, xc), yfv = from_rowmajor(gf, yf);
             auto up = [&](const char* name, auto fn) {
